@@ -14,7 +14,7 @@ COQ_DEPS = ["Common/ListX.v", "Common/ObsHash.v", "Generated/Tables.v", "Model/L
 COQ_IMPORTS = "From Mesa Require Import Model.LegacyGrid."
 COQ_CASE_TYPE = "case"
 COQ_RUN = "run_case"
-TABLE_CONSTRUCTS = []
+TABLE_CONSTRUCTS = ["mask_single_place", "mask_single_remove", "mask_multi_place", "mask_multi_remove"]
 ENUM_ALWAYS = False
 RULE = ("histories = one legacy grid (class in Single/Multi/HexSingle/HexMulti, w,h in 1..5 (a few 6x6 for the rejection-"
         "sampling branch of move_to_empty), torus, with/without a property layer, 1..7 agents) + up to 35 calls of "
@@ -29,6 +29,8 @@ RULE = ("histories = one legacy grid (class in Single/Multi/HexSingle/HexMulti, 
 TRUSTED_BASE = [
     "Coq 8.16.1 kernel (coqc); vm_compute used for the Examples and for evaluating the model in the correspondence",
     "no axioms: Print Assumptions reports 'Closed under the global context' for every C08 / C18_legacygrid theorem",
+    "harness/tables/c08_mask_writes.py (T1) extracting (value, guarded-by-_empties_built) of the _empty_mask write in "
+    "SingleGrid/MultiGrid.place_agent/remove_agent",
     "harness/props/C08.py driver+observer and the Gallina literal printer (T2, differential testing, not a proof)",
     "Model/LegacyGrid.v is a hand transcription of mesa/space.py (SingleGrid/MultiGrid place/remove, _Grid movers, torus_adj, "
     "empties, empty_mask) as repaired by fixes/C08-1..3; Python int arithmetic = Z, list-of-lists = coord -> list, "
